@@ -155,6 +155,19 @@ partial def loop (h : IO.FS.Stream) (l : Drummer.Loop) : IO Unit := do
       match l.db.apply .tick with
       | .ok (db', n) => let l' := { l with db := db' }; out (toString n) l'; loop h l'
       | .panic _ => IO.println "panic"; loop h l
+    | "late_report" =>
+      -- a copy of an earlier report arrives late: the replicated state applies it like any report, nobody waits for the reply
+      let nhi : NodeHostInfo := {
+        raftAddress := js j "addr"
+        rpcAddress := js j "rpc"
+        region := js j "region"
+        plogIncluded := jb j "plog_inc"
+        plogInfo := (ja j "plog").toList.map parseLog
+        shardIdList := jnums j "ids"
+        shardInfo := (ja j "infos").toList.map parseInfo }
+      match l.db.apply (.report nhi) with
+      | .ok (db', n) => let l' := { l with db := db' }; out (toString n) l'; loop h l'
+      | .panic _ => IO.println "panic"; loop h l
     | "report" =>
       match l.report (js j "addr") (jb j "replyLost") with
       | .ok (l', n) => out (toString n) l'; loop h l'
